@@ -1,6 +1,7 @@
 package main
 
 import (
+	"bytes"
 	"encoding/json"
 	"fmt"
 	"math/rand"
@@ -38,7 +39,7 @@ func wsScript(name string) []wsStep {
 		return append(s, wsStep{"c2s", t, 2})
 	case "empty_and_big":
 		return []wsStep{{"c2s", t, 0}, {"s2c", t, 0}, {"c2s", b, 100000}, {"s2c", b, 100000}}
-	case "long_session":
+	case "long_session", "long_session_tokens":
 		// the tunnel outlives the configured end-to-end handler timeout (1 s in this script's configuration)
 		return []wsStep{{"c2s", t, 5}, {"s2c", t, 5}, {"pause", 0, 1600}, {"c2s", t, 7}, {"s2c", t, 7}}
 	case "binary_mix":
@@ -61,6 +62,22 @@ func wsPayload(seed int64, i int, st wsStep) []byte {
 }
 
 func frameSig(typ int, p []byte) string { return fmt.Sprintf("%d:%s", typ, digest(p)) }
+
+// tokenListConn rewrites the Connection header of the handshake (the first write) into a token list
+type tokenListConn struct {
+	net.Conn
+	done bool
+}
+
+func (c *tokenListConn) Write(b []byte) (int, error) {
+	if !c.done {
+		c.done = true
+		nb := bytes.Replace(b, []byte("Connection: Upgrade\r\n"), []byte("Connection: keep-alive, Upgrade\r\n"), 1)
+		_, err := c.Conn.Write(nb)
+		return len(b), err
+	}
+	return c.Conn.Write(b)
+}
 
 type wsSession struct {
 	steps  []wsStep
@@ -152,7 +169,7 @@ func runWS(idx int, raw json.RawMessage, seed int64) map[string]any {
 	}
 	cfg.Logging.RequestID.Enabled = c.IDs
 	cfg.Logging.Trace.Enabled = c.IDs
-	if c.Script == "long_session" {
+	if c.Script == "long_session" || c.Script == "long_session_tokens" {
 		cfg.Server.Timeouts.Handler = 1
 	}
 	h, err := startHelios(cfg)
@@ -169,6 +186,16 @@ func runWS(idx int, raw json.RawMessage, seed int64) map[string]any {
 	wsMu.Unlock()
 	defer func() { wsMu.Lock(); delete(wsSessions, key); wsMu.Unlock() }()
 	d := websocket.Dialer{HandshakeTimeout: 5 * time.Second}
+	if c.Script == "long_session_tokens" {
+		// the handshake names the upgrade in a token list, as browsers do: "Connection: keep-alive, Upgrade"
+		d.NetDial = func(network, addr string) (net.Conn, error) {
+			nc, err := net.DialTimeout(network, addr, 5*time.Second)
+			if err != nil {
+				return nil, err
+			}
+			return &tokenListConn{Conn: nc}, nil
+		}
+	}
 	hdr := http.Header{"X-Verif-Key": []string{key}, "Accept-Encoding": []string{"gzip"}}
 	conn, _, err := d.Dial("ws://"+h.addr+"/ws", hdr)
 	if err != nil {
